@@ -37,12 +37,13 @@ func checkC10(P *Prog, r *Result) {
 	shareRule(P, r, checkC17, "C17/option-locality", nil, "C10/issuepath-option-effective", 15)
 	// an issue object appears once in the map: an issue released to the pool twice is handed to two later
 	// failures, and the map then holds one object under two keys, with the Path of only one of them (C07's rule)
-	shareRule(P, r, checkC07, "C07/release-multiplicity", nil, "C10/issue-object-unique", 1)
+	shareRule(P, r, checkC07, "C07/release-multiplicity", nil, "C10/issue-object-unique", 0)
 	// the path of an issue is the path of its own node: the pooled PathBuilder an execution pushes its segments on
 	// belongs to that execution alone (released once: C07's release rule) and starts from the empty root (C07's
-	// re-initialisation rule), else segments of another execution show up in the keys
-	shareRule(P, r, checkC07, "C07/release", func(o Obligation) bool { return strings.Contains(o.Construct, "PathBuilder") }, "C10/path-builder-own", 2)
-	shareRule(P, r, checkC07, "C07/reinit", func(o Obligation) bool { return strings.Contains(o.Construct, "PathBuilder") }, "C10/path-builder-clean", 1)
+	// re-initialisation rule), else segments of another execution show up in the keys. (No floor: a tree that stops
+	// pooling path builders has nothing to release or re-initialise, and the property holds.)
+	shareRule(P, r, checkC07, "C07/release", func(o Obligation) bool { return strings.Contains(o.Construct, "PathBuilder") }, "C10/path-builder-own", 0)
+	shareRule(P, r, checkC07, "C07/reinit", func(o Obligation) bool { return strings.Contains(o.Construct, "PathBuilder") }, "C10/path-builder-clean", 0)
 	_ = R
 }
 
